@@ -257,8 +257,15 @@ def self_declared_lazy(chk, repo):
                         continue
                     if excluded_by_guard(s.node, fn, a.arg):
                         continue
+                    conds = path_conditions(s.node, fn)
                     if any(guard_says_not_lazy(t, a.arg, pos) is pol
-                           for t, pol in path_conditions(s.node, fn)):
+                           for t, pol in conds):
+                        continue
+                    # the guard may speak about a view (the operand chosen
+                    # after a swap): what is iterated is that view
+                    if any(guard_says_not_lazy(t, v, None) is pol
+                           for t, pol in conds
+                           for v in lv.views if v != a.arg):
                         continue
                     bad.append(s)
                 if not bad:
